@@ -1,24 +1,24 @@
 (* Correspondence cases for C17: evaluated by vm_compute on cases written by
-   the harness from the implementation's observed behaviour. *)
+   the harness from the implementation's observed behaviour.  A case is a
+   history of one middleware value serving [nslots] connection slots:
+   connections begin ([LStart]), exchange messages ([LOp]) and end ([LEnd]),
+   one after the other or overlapping. *)
 From Moc Require Import Base Msg Mw MwCheck.
 Open Scope Z_scope.
 
 Inductive case :=
-| CStack (now : Z) (mws : list mwdesc) (ops : list op) (built_ok : bool) (obs : list obs)
-| CNip11 (now : Z) (doc : nip11) (ops : list op) (built_ok : bool) (obs : list obs)
+| CStack (now : Z) (mws : list mwdesc) (nslots : nat) (h : list (nat * lop)) (built_ok : bool) (obs : list obs)
+| CNip11 (now : Z) (doc : nip11) (nslots : nat) (h : list (nat * lop)) (built_ok : bool) (obs : list obs)
 | CBroken.   (* the harness lost a message or its sentinel: nothing to compare *)
-
-Definition model_agrees (now : Z) (ks : list mwk) (ops : list op) (obs : list obs) : bool :=
-  obs_list_eqb ops (snd (sess_run now (stack_init ks) ops)) obs.
 
 Definition run_case (c : case) : bool * bool :=
   match c with
-  | CStack now mws ops built_ok obs =>
-      (built_ok && model_agrees now (List.map desc_model mws) ops obs,
-       built_ok && session_ok now (List.map desc_spec mws) ops obs)
-  | CNip11 now doc ops built_ok obs =>
+  | CStack now mws nslots h built_ok obs =>
+      (built_ok && life_model_agrees now (List.map desc_model mws) nslots h obs,
+       built_ok && life_ok now (List.map desc_spec mws) nslots h obs)
+  | CNip11 now doc nslots h built_ok obs =>
       (match build_nip11 doc with
-       | BStack ks => built_ok && model_agrees now ks ops obs
+       | BStack ks => built_ok && life_model_agrees now ks nslots h obs
        | BPanic => negb built_ok
        | BUnknown => false
        end,
@@ -26,8 +26,8 @@ Definition run_case (c : case) : bool * bool :=
           otherwise exactly the non-zero limits, as the individual middlewares
           enforce them (limits out of range, i.e. negative counts: not claimed) *)
        match doc with
-       | DocNil | DocNoLim => built_ok && session_ok now [] ops obs
-       | DocLim l => if lim_nonnegb l then built_ok && session_ok now (nip11_limits l) ops obs else true
+       | DocNil | DocNoLim => built_ok && life_ok now [] nslots h obs
+       | DocLim l => if lim_nonnegb l then built_ok && life_ok now (nip11_limits l) nslots h obs else true
        end)
   | CBroken => (false, false)
   end.
